@@ -722,7 +722,7 @@ def run_c10(ctx):
 
     # ---- extra module: listings parsed by several threads at once (ParseLock.tla, see conf_parselock.py)
     import conf_parselock
-    conf_parselock.run(ctx, tlc.workdir('c10pl'))
+    ctx.extra('ParseLock', conf_parselock.run, tlc.workdir('c10pl'))
     ctx.cov['exhaustive'] = True
     ctx.cov['explanation'] = ('exhaustive over the document structures of the TLC configurations in tlc_runs (%d documents '
                               'rendered and parsed; %d Apollo3 trees written and read back); %d random printed listings beyond '
